@@ -318,6 +318,9 @@ def systematic_jobs(tier: str, seed: int, ctx) -> list[dict]:
                 extra = [{"op": "create", "kind": "Symbolic", "k": 1}, {"op": "create", "kind": "Function", "k": 3}, {"op": "create", "kind": "CoordinateSystem", "k": 2}]
             ops = list(pre) + extra + [{"op": "jump", "prefix": "SYM", "to": to_sym}, {"op": "jump", "prefix": "FUN", "to": to_fun}, {"op": "jump", "prefix": "QTY", "to": to_qty}, {"op": "observe", "m": m, "tests": tier == "thorough" and v < 3}]
             jobs.append(_job(seed, f"sys:{i}:{v}", ENV0, ops))
+        # the module is imported first, *then* the user creates objects of their own (wrappers, symbols,
+        # functions, quantities whose display names coincide with catalogue ones), then the module is used
+        jobs.append(_job(seed, f"sys:{i}:after", ENV0, [{"op": "import", "m": m}, {"op": "create", "kind": "Symbolic", "k": 1}, {"op": "create", "kind": "Function", "k": 2}, {"op": "create", "kind": "Quantity", "k": 3}, {"op": "create", "kind": "IndexedSymbol", "k": 2}, {"op": "observe", "m": m}]))
     return jobs
 
 
